@@ -116,7 +116,8 @@ CHECKS.update({
     "C06": dict(
         engine="Lifecycle", category="model_checking",
         text=("Lifecycle.tla transcribes the session receive path (validateRequestMeta, ServerSession.handle, initialize/initialized, discover) as a step function over a "
-              "167-letter message alphabet and states C06 as seven clauses over a phase tracker that sees only messages and replies. TLC checks the clauses on the complete "
+              "455-letter message alphabet (method x per-request-meta class x initialize-params class x spelling of the _meta member names on the wire: literal, escaped solidus, \\uXXXX - "
+              "all the same JSON, so every spelling must be answered like the literal one) and states C06 as eight clauses over a phase tracker that sees only messages and replies. TLC checks the clauses on the complete "
               "(state x message) table and on every core-letter sequence up to length 3 (quick) / 4 (thorough), and generates table cells, transition-cover walks, all core "
               "sequences and seeded length-8 simulations; these are replayed on a real mcp.Server with every user-visible handler instrumented (raw io pipes, in-memory, "
               "stateful streamable HTTP in process) under synctest; the TLA+ monitor LifecycleMon gives the verdict."),
